@@ -98,6 +98,16 @@ def pred_check(v, tier, seed):
                     m = re.search(rf"{key}=(\w+)", l)
                     if m and m.group(1) != want:
                         return f"{what}: answers {m.group(1)}, by the documentation {want}; state: {l[:300]}"
+                # prunes::proc_permutations by its documentation: a state is pruned unless the processes' first mentions in the current
+                # run follow the given order (here: all processes in name order, and in reverse name order)
+                pp = re.search(r"ppp=([01p]{2}) fm=([\w.]*)", l)
+                allp = sorted(set(re.findall(r"[{/](p\d+):", l.split(" E[")[0])))
+                if pp and "p" not in pp.group(1) and allp:
+                    fm = [x for x in pp.group(2).split(".") if x]
+                    want = "".join("0" if fm == order[:len(fm)] else "1" for order in (allp, allp[::-1]))
+                    if pp.group(1) != want:
+                        return (f"prunes::proc_permutations for the orders {allp} and its reverse: prunes = {pp.group(1)}, by the documentation {want} "
+                                f"(first mentions in the current run: {fm}); state: {l[:260]}")
                 # invariants::received_messages by its documentation ("matches exactly the expected messages; duplications or
                 # unexpected messages are not allowed"), for the first process and the expected sets D, D minus its first element,
                 # D plus a foreign message, D = the distinct payloads of its outbox
@@ -158,7 +168,7 @@ PROPS = {
                        mc("mc_links", dict(p_link=0.7, p_fault=0.2, nodes=(2, 3), procs=(2, 4), p_send=0.6, p_timer=0.1), refenum=True, n_quick=100, n_thorough=1500,
                           extra_gen=mc_checks.gen_mc_link_matrix, nontrivial=lambda st: st["multi_states"])]},
     "C06": {"ready": True, "replay": sim_replay,
-            "suites": [sim("sim_time", "C06", dict(p_random_delay=0.7, p_skew=0.6, p_clock=0.4, p_crash=0.1),
+            "suites": [sim_suite.time_laws_probe, sim("sim_time", "C06", dict(p_random_delay=0.7, p_skew=0.6, p_clock=0.4, p_crash=0.1),
                            nontrivial=lambda st: st["received"] and st["timers_fired"],
                            extra=lambda rng, tier: [(f"sk{i}", sim_suite.gen_skew_recover(rng)) for i in range(150 if tier == "quick" else 3000)])]},
     "C08": {"ready": True, "replay": sim_replay,
@@ -171,7 +181,7 @@ PROPS = {
             "suites": [sim("sim_logs", "C17", dict(p_fault=0.5, p_crash=0.4, p_link=0.3, nodes=(2, 3), procs=(2, 4)),
                            nontrivial=lambda st: st["received"] and (st["dropped"] or st["crash"]),
                            extra=lambda rng, tier: [(f"cb{i}", sim_suite.gen_crash_burst(rng)) for i in range(150 if tier == "quick" else 3000)])]},
-    "C18": {"ready": True, "replay": mc_checks.replay, "suites": [lambda v, tier, seed: py_suite.run(v, tier, seed)],
+    "C18": {"ready": True, "replay": auto_replay, "suites": [lambda v, tier, seed: py_suite.run(v, tier, seed), py_suite.copy_isolation],
             "partial": "pickle, deepcopy, PyO3 conversions and JSON text are runtime behaviour covered by the correspondence runs only"},
     "C19": {"ready": True, "replay": mc_checks.replay, "suites": [pred_check],
             "partial": "state_depth_current_run is proved only in its sound half (finding D11); time_limit (wall clock) is outside the model"},
